@@ -27,6 +27,9 @@ pub enum Op {
     CloneSwap,
     /// xor a byte of the data through the mutable view (index taken modulo the length)
     PokeMut(usize, u8),
+    /// `write_vectored` with at most one non-empty buffer (where every conforming implementation must agree with
+    /// the std cursor: nothing to write, or exactly one buffer to write)
+    WriteV(Vec<Vec<u8>>),
 }
 
 /// positions at which a write is still replayed on both cursors (keeps the std model away from
@@ -74,6 +77,13 @@ pub fn op_strategy() -> impl Strategy<Value = Op> {
         1 => Just(Op::StreamPosition),
         1 => Just(Op::CloneSwap),
         1 => (0usize..6000, 1u8..=255).prop_map(|(i, x)| Op::PokeMut(i, x)),
+        1 => (0usize..4, 0usize..4, prop::collection::vec(any::<u8>(), 0..40)).prop_map(|(n, k, d)| {
+            let mut bufs = vec![vec![]; n];
+            if n > 0 {
+                bufs[k % n] = d;
+            }
+            Op::WriteV(bufs)
+        }),
     ]
 }
 
@@ -143,6 +153,18 @@ pub fn run_history<A: Alignment>(ops: &[Op], with_capacity: Option<usize>) -> Re
                 s.set_position(*p);
             }
             Op::Position | Op::Len | Op::AsBytes => {}
+            Op::WriteV(bufs) => {
+                if s.position() > WRITE_POS_LIMIT {
+                    skipped += 1;
+                    continue;
+                }
+                let ios: Vec<std::io::IoSlice> = bufs.iter().map(|b| std::io::IoSlice::new(b)).collect();
+                let ra = guard(|| io_res(a.write_vectored(&ios))).map_err(|p| format!("{}: AlignedCursor panicked: {}", step, p))?;
+                let rs = io_res(s.write_vectored(&ios));
+                if ra != rs {
+                    return Err(format!("{}: write_vectored returned {:?}, std cursor {:?}", step, ra, rs));
+                }
+            }
             Op::CloneSwap => {
                 let c = guard(|| a.clone()).map_err(|p| format!("{}: clone panicked: {}", step, p))?;
                 a = c;
@@ -198,6 +220,7 @@ fn short(op: &Op) -> String {
     match op {
         Op::Write(d) => format!("Write({} bytes)", d.len()),
         Op::WriteAll(d) => format!("WriteAll({} bytes)", d.len()),
+        Op::WriteV(b) => format!("WriteV({:?} bytes)", b.iter().map(|x| x.len()).collect::<Vec<_>>()),
         o => format!("{:?}", o),
     }
 }
@@ -229,6 +252,7 @@ pub fn ops_to_json(ops: &[Op]) -> Value {
             Op::SeekEnd(p) => json!({"SeekEnd": p.to_string()}),
             Op::SetPosition(p) => json!({"SetPosition": p.to_string()}),
             Op::PokeMut(i, x) => json!({"PokeMut": [i, x]}),
+            Op::WriteV(b) => json!({"WriteV": b}),
             o => json!(format!("{:?}", o)),
         })
         .collect::<Vec<_>>())
@@ -258,6 +282,7 @@ pub fn ops_from_json(v: &Value) -> Vec<Op> {
                 "SeekCurrent" => Op::SeekCurrent(num().parse().unwrap_or(0)),
                 "SeekEnd" => Op::SeekEnd(num().parse().unwrap_or(0)),
                 "PokeMut" => Op::PokeMut(val[0].as_u64().unwrap_or(0) as usize, val[1].as_u64().unwrap_or(1) as u8),
+                "WriteV" => Op::WriteV(val.as_array().map(|a| a.iter().map(|b| b.as_array().map(|x| x.iter().map(|y| y.as_u64().unwrap_or(0) as u8).collect()).unwrap_or_default()).collect()).unwrap_or_default()),
                 _ => Op::SetPosition(num().parse().unwrap_or(0)),
             });
         }
